@@ -80,9 +80,10 @@ type namedRule struct {
 	v    schema.RuleASTNode
 }
 
+// normNote: the note is the text behind the dash (or the whole annotation text) without the blanks and line
+// breaks around it: the generator's notes have none, so the AST must report them byte for byte.
 func normNote(s string) string {
-	f := strings.Fields(s)
-	return strings.Join(f, " ")
+	return s
 }
 
 func compareRuleList(want []gen.Rule, got []namedRule, path string) string {
